@@ -20,7 +20,7 @@ ATTR_TYPES = ["Int8", "UInt8", "Byte", "Int16", "UInt16", "Int32", "UInt32", "In
 SHORT = ["x", "y", "t", "lat", "lon", "time", "z", "n"]
 VARS = ["a", "b", "v", "w", "temp", "u", "sst", "k", "x", "time"]
 GROUPS = ["g1", "g2", "sub", "A", "obs"]
-ANAMES = ["units", "long_name", "valid_range", "scale", "fill", "title", "n"]
+ANAMES = ["units", "long_name", "valid_range", "scale", "fill", "title", "n", "valid range", "coord.sys", "x:y", "flag[0]"]
 NS = "http://xml.opendap.org/ns/DAP/4.0#"
 
 
